@@ -184,6 +184,8 @@ func fstreeAPIs(t common.Storage, objs map[oid.Address]*objV) map[string]func(oi
 
 var errNA = errors.New("n/a")
 
+var oneReq rngIn // request of `fstree c11one`
+
 // noPut is a blob storage that is full: the write-cache cannot flush into it.
 type noPut struct{ common.Storage }
 
@@ -522,6 +524,17 @@ func c11(out string, kind string, lens []int, span int) {
 			emit(rngIn{Mode: "none", L: L}, "0", "0")
 			all4(L, xs, xs)
 		}
+	case "upto": // exhaustive: every (a, b) in 0..span for every stored length
+		var xs []uint64
+		for a := 0; a <= span; a++ {
+			xs = append(xs, uint64(a))
+		}
+		for _, L := range lens {
+			emit(rngIn{Mode: "none", L: L}, "0", "0")
+			all4(L, xs, xs)
+		}
+	case "one": // a single request (replay)
+		emit(oneReq, num(oneReq.A), num(oneReq.B))
 	case "large": // boundary-directed: around the buffered prefix, the buffer size and the payload end
 		for i, L := range lens {
 			hdr := len(ovs[i].bin) - L
